@@ -667,6 +667,8 @@ class Interp:
         if isinstance(v, NDArr):
             if attr in ('real', 'imag', 'T', 'flat'):
                 return NDArr(v.store, view=attr)
+            if attr == 'dtype' and v.dtype is not None:
+                return v.dtype
             if attr in ('shape', 'size', 'ndim', 'dtype'):
                 return Opaque('arr.' + attr)
             return LibFn('ndarray.' + attr, bound=v)
@@ -742,6 +744,8 @@ class Interp:
                 return NDArr(v.store, view=('slice', lo, hi, st, v.view))
             return Opaque('slice')
         k = self.ev(n.slice, env)
+        if isinstance(v, NDArr) and (isinstance(k, slice) or (isinstance(k, tuple) and any(isinstance(x, slice) for x in k))):
+            return NDArr(v.store, view=('index', k, v.view), dtype=v.dtype)
         return self.getitem(v, k, n)
 
     def getitem(self, v, k, node=None):
@@ -791,6 +795,10 @@ class Interp:
             return Opaque(f'{v.cls}[]')
         if isinstance(v, Opaque):
             return Opaque(f'{v.tag}[]', [v])
+        if isinstance(v, LibFn):
+            if v.name.endswith(('.r_', '.c_')):
+                return NDArr(Store(f'fresh@{getattr(node, "lineno", 0)}', None))     # np.r_[...] builds a new array
+            return Opaque(f'{v.name}[]')
         raise Unsupported(f'subscript of {type(v).__name__}')
 
     # comprehensions over concrete iterables
@@ -821,6 +829,11 @@ class Interp:
         out = {}
         self.comp_iter(n.generators, env, lambda e: out.__setitem__(self.ev(n.key, e), self.ev(n.value, e)))
         return out
+
+    def ev_Slice(self, n, env):
+        return slice(self.ev(n.lower, env) if n.lower is not None else None,
+                     self.ev(n.upper, env) if n.upper is not None else None,
+                     self.ev(n.step, env) if n.step is not None else None)
 
     def ev_Starred(self, n, env):
         raise Unsupported('starred')
@@ -1181,7 +1194,7 @@ class Interp:
             cur.store.val = self.pointwise(type(s.op).__name__, cur.store.val, vb)
             cur.store.version += 1
             self.ctx.event('mutate', store=cur.store, line=s.lineno, how=f'{type(s.op).__name__}=',
-                           target=ast.unparse(s.target))
+                           target=ast.unparse(s.target), arr=cur, value=rhs)
             return
         if isinstance(cur, list) and isinstance(s.op, ast.Add):
             cur.extend(self.iterate(rhs))
@@ -1238,10 +1251,16 @@ class Interp:
             o[k] = v
             return
         if isinstance(o, NDArr):
-            o.store.val = None
+            whole = (isinstance(k, slice) and k == slice(None, None, None)) and o.view in ('whole', 'reshape', 'ravel')
+            if whole and isinstance(v, (int, float)) and not isinstance(v, bool):
+                o.store.val = z3.RealVal(repr(float(v)))       # a[:] = scalar
+            elif whole and isinstance(v, NDArr):
+                o.store.val = v.store.val                      # a[:] = other array (element-wise copy)
+            else:
+                o.store.val = None
             o.store.version += 1
             self.ctx.event('mutate', store=o.store, line=getattr(node, 'lineno', 0), how='setitem', key=k, value=v,
-                           target='')
+                           target='', arr=o)
             return
         if isinstance(o, Obj):
             hook = self.ctx.opts.get('setitem_hook')
